@@ -202,9 +202,9 @@ def dy(rng, lim=8, den=4):
     return rng.randint(-lim, lim) / den
 
 
-def gen_problem(rng):
-    n = rng.choice([1, 2, 2, 3, 4])
-    m = rng.choice([0, 0, 1, 1, 2, 3, 4])
+def gen_problem(rng, n=None, m=None):
+    n = rng.choice([1, 2, 2, 3, 4]) if n is None else n
+    m = rng.choice([0, 0, 1, 1, 2, 3, 4]) if m is None else m
     c = [dy(rng) for _ in range(n)]
     Q = [0.0] * (n * n)
     for i in range(n):
@@ -232,11 +232,13 @@ def gen_problem(rng):
                 Hf=[fl(v) for v in Hf], g=[fl(v) for v in g], J=[fl(v) for v in J])
 
 
-def gen_case(rng, masks):
-    p = gen_problem(rng)
+SIGMA_FNS = {'psi', 'grad_psi', 'psi_grad_psi', 'calc', 'hess_psi_prod', 'hess_psi'}
+ROUTES = ['ct', 'cnt', 'rt', 'dl', 'fun']
+
+
+def gen_point(rng, p, exact, scalar_sigma):
+    """multipliers, penalties, direction and scale for one call at the problem's point"""
     n, m = p['n'], p['m']
-    exact = rng.random() < 0.45
-    scalar_sigma = rng.random() < 0.3
     nS = 1 if scalar_sigma else m
     if exact:
         y = [dy(rng, 12, 4) for _ in range(m)]
@@ -244,9 +246,16 @@ def gen_case(rng, masks):
     else:
         y = [rng.gauss(0, 1) * 10 ** rng.uniform(-2, 2) if rng.random() < 0.8 else dy(rng) for _ in range(m)]
         S = [math.exp(rng.gauss(0, 2)) for _ in range(nS)]
+    scale = rng.choice([1.0, 1.0, 0.5, 2.0, dy(rng, 8, 4) if exact else rng.gauss(0, 2)])
+    v = [dy(rng) for _ in range(n)]
+    return y, S, scale, v
+
+
+def gen_box(rng, p, y, S, exact):
+    m = p['m']
     lb, ub = [], []
     for j in range(m):
-        s = S[0] if nS == 1 else S[j]
+        s = S[0] if len(S) == 1 else S[j]
         zeta = Fr(p['g'][j]) + Fr(y[j]) / Fr(s)
         z = float(zeta)
         k = rng.random()
@@ -273,8 +282,18 @@ def gen_case(rng, masks):
         if lo > hi:
             lo, hi = hi, lo
         lb.append(lo); ub.append(hi)
-    scale = rng.choice([1.0, 1.0, 0.5, 2.0, dy(rng, 8, 4) if exact else rng.gauss(0, 2)])
-    v = [dy(rng) for _ in range(n)]
+    return lb, ub
+
+
+def fmt_data(mask, p, y, S, lb, ub, scale, v, exact):
+    n, m = p['n'], p['m']
+    return (f'{mask} {n} {m} {vec2p(p["x"])} {f2h(p["f0"])} {vec2p(p["gf"])} {vec2p(p["g"])} {vec2p(p["J"])} '
+            f'{vec2p(p["Hf"])} {vec2p(p["HG"])} {vec2p(y)} {vec2p(S)} {vec2p(lb)} {vec2p(ub)} {f2h(scale)} '
+            f'{vec2p(v)} P {vec2p(p["c"])} {vec2p(p["Q"])} {f2h(p["t3"])} {vec2p(p["A"])} {vec2p(p["b"])} '
+            f'E{1 if exact else 0}')
+
+
+def pick_route(rng, masks):
     k = rng.random()
     if k < 0.40:
         variant, mask = 'ct', rng.choice(masks)
@@ -288,23 +307,146 @@ def gen_case(rng, masks):
         variant, mask = 'fun', rng.getrandbits(4) << 7
     if variant in ('rt', 'dl') and rng.random() < 0.1:
         mask = rng.choice([0, (1 << NBITS) - 1, 1 << rng.randrange(NBITS)])
-    data = (f'{mask} {n} {m} {vec2p(p["x"])} {f2h(p["f0"])} {vec2p(p["gf"])} {vec2p(p["g"])} {vec2p(p["J"])} '
-            f'{vec2p(p["Hf"])} {vec2p(p["HG"])} {vec2p(y)} {vec2p(S)} {vec2p(lb)} {vec2p(ub)} {f2h(scale)} '
-            f'{vec2p(v)} P {vec2p(p["c"])} {vec2p(p["Q"])} {f2h(p["t3"])} {vec2p(p["A"])} {vec2p(p["b"])} '
-            f'E{1 if exact else 0}')
+    return variant, mask
+
+
+def gen_case(rng, masks, force=None):
+    """one problem / point; `force` may fix variant, mask, m0 (bool), scalar_sigma, fns"""
+    force = force or {}
+    m = None
+    if 'm0' in force:
+        m = 0 if force['m0'] else rng.choice([1, 2, 2, 3, 4])
+    p = gen_problem(rng, m=m)
+    exact = rng.random() < 0.45
+    scalar_sigma = force.get('scalar_sigma', rng.random() < 0.3)
+    if scalar_sigma and p['m'] == 1 and 'scalar_sigma' in force:
+        p = gen_problem(rng, n=p['n'], m=2)           # a single factor must differ from a vector
+    y, S, scale, v = gen_point(rng, p, exact, scalar_sigma)
+    lb, ub = gen_box(rng, p, y, S, exact)
+    variant, mask = pick_route(rng, masks)
+    variant, mask = force.get('variant', variant), force.get('mask', mask)
+    data = fmt_data(mask, p, y, S, lb, ub, scale, v, exact)
     fns = list(FNS)
     if rng.random() < 0.6:
         fns = rng.sample(FNS, 5)
+    fns = force.get('fns', fns)
     return [f'ev {fn} {variant} {data}' for fn in fns]
+
+
+def gen_seq(rng, masks):
+    """a sequence of calls on ONE problem object (`sq0` then `sqn`): every call has its own point x
+    (own tables), multipliers, penalties (vector or single factor), direction; the box D, the route,
+    the mask and the dimensions belong to the object"""
+    variant, mask = pick_route(rng, masks)
+    n = rng.choice([1, 2, 3, 4])
+    m = rng.choice([0, 1, 2, 2, 3, 4])
+    exact = rng.random() < 0.45
+    ops = []
+    lb = ub = None
+    for k in range(rng.choice([2, 3, 4, 6, 8])):
+        p = gen_problem(rng, n=n, m=m)
+        y, S, scale, v = gen_point(rng, p, exact, rng.random() < 0.3)
+        if lb is None:
+            lb, ub = gen_box(rng, p, y, S, exact)
+        fn = rng.choice(FNS)
+        ops.append(f'{"sq0" if k == 0 else "sqn"} {fn} {variant} {fmt_data(mask, p, y, S, lb, ub, scale, v, exact)}')
+    return ops
+
+
+# ---------------------------------------------------------------- required coverage (route × function × mask class)
+
+def how_of(fn, mask, m):
+    """how the interface function is obtained for this mask: supplied by the problem, a default built
+    from other functions, the m = 0 fallback of the ψ Hessians, or not available"""
+    if fn not in FN_SLOT:
+        return '-'
+    if (mask >> FN_SLOT[fn]) & 1:
+        return 'supplied'
+    if FN_SLOT[fn] < 7:
+        return 'default'
+    if 'psi' in fn and m == 0 and (mask >> (7 if fn.endswith('prod') else 9)) & 1:
+        return 'fallback'
+    return 'notimpl'
+
+
+def sigma_kind(fn, S, m):
+    if fn not in SIGMA_FNS:
+        return '-'
+    return 'one' if len(S) == 1 and m != 1 else 'vec'
+
+
+def required_cells():
+    """(route, function, how, m = 0?, Σ kind) — every class the property's quantifier names"""
+    cells = []
+    for route in ROUTES:
+        for fn in FNS:
+            sigs = ['vec', 'one'] if fn in SIGMA_FNS else ['-']
+            for m0 in (False, True):
+                for sg in sigs:
+                    if fn not in FN_SLOT:
+                        hows = ['-']
+                    elif FN_SLOT[fn] < 7:
+                        hows = ['default'] if route == 'fun' else ['supplied', 'default']
+                    else:
+                        hows = ['supplied', 'notimpl'] + (['fallback'] if 'psi' in fn and m0 else [])
+                    cells += [(route, fn, h, m0, sg) for h in hows]
+    return cells
+
+
+def mask_for(rng, masks, route, fn, how, m0):
+    """a mask of the route that realises `how` for `fn`"""
+    def ok(mk):
+        return how_of(fn, mk, 0 if m0 else 1) == how
+    if route in ('ct', 'cnt'):
+        cand = [mk for mk in masks if ok(mk)]
+    elif route == 'fun':
+        cand = [mk << 7 for mk in range(16) if ok(mk << 7)]
+    else:
+        cand = [mk for mk in (rng.getrandbits(NBITS) for _ in range(64)) if ok(mk)]
+    return rng.choice(cand) if cand else None
+
+
+def gen_prelude(rng, masks):
+    """one case per required cell (deterministic in the seed), so that no class depends on luck"""
+    ops = []
+    for (route, fn, how, m0, sg) in required_cells():
+        mask = rng.choice(masks if route in ('ct', 'cnt') else [0]) if how == '-' else \
+            mask_for(rng, masks, route, fn, how, m0)
+        if mask is None:
+            continue
+        ops += gen_case(rng, masks, dict(variant=route, mask=mask, m0=m0, scalar_sigma=(sg == 'one'), fns=[fn]))
+    return ops
+
+
+COV = {}          # (route, fn, how, m0, Σ kind) -> evaluations the monitor accepted
+COV_MASKS = {}    # route -> set of masks
+COV_SEQ = {'sequences': 0, 'calls_after_the_first': 0}
+EXEMPT = {}       # named exemption -> count
 
 
 def make_gen_ops(masks):
     def gen_ops(rng, n):
-        ops = []
+        ops = gen_prelude(rng, masks)
         while len(ops) < n:
-            ops += gen_case(rng, masks)
+            ops += gen_seq(rng, masks) if rng.random() < 0.25 else gen_case(rng, masks)
         return ops
     return gen_ops
+
+
+def corpus_ops(masks):
+    """fixed inputs kept from earlier seeded changes: the m = 0 shortcut of
+    default_eval_grad_f_grad_g_prod must still write ∇g·y = 0 (outputs are NaN-prefilled), on every
+    route, alone and as a later call on a kept object whose previous call had other outputs"""
+    rng = random.Random(4)
+    ops = []
+    for route in ('ct', 'cnt', 'rt', 'dl', 'fun'):
+        for fn in ('gfggp', 'grad_L', 'grad_psi', 'psi_grad_psi', 'psi'):
+            ops += gen_case(rng, masks, dict(variant=route, mask=0, m0=True, scalar_sigma=False, fns=[fn]))
+        p1, p2 = gen_problem(rng, n=3, m=0), gen_problem(rng, n=3, m=0)
+        for k, p in enumerate((p1, p2)):
+            y, S, scale, v = gen_point(rng, p, True, False)
+            ops.append(f'{"sq0" if k == 0 else "sqn"} gfggp {route} {fmt_data(0, p, y, S, [], [], scale, v, True)}')
+    return ops
 
 
 # ---------------------------------------------------------------- monitors
@@ -388,7 +530,7 @@ def cmp_vec(name, vals, exacts, mags, dexact, k=16):
     return None
 
 
-def monitor(op, out, st):
+def monitor_one(op, out, st):
     if out.startswith('exception') or out in ('bad-op', 'parse-error') or out.startswith('bad-fn'):
         return f'unexpected {out}'
     d = parse_op(op)
@@ -498,7 +640,11 @@ def monitor(op, out, st):
                sum(abs(F(J[j * n + i]) * act[j] * F(J[j * n + k])) for j in range(m)) for k in range(n)] for i in range(n)]
         if psi_kind and any(cf['d'][j] != 0 and abs(cf['d'][j]) <= 64 * EPS * (abs(cf['zeta'][j]) + abs(cf['pz'][j]))
                             for j in range(m)):
-            return None                       # active-set decision within rounding of a kink
+            # active-set decision within rounding of a kink: the generalised Hessian of ½dist² is
+            # set-valued there (decided from the exact ζ and the box, not from anything the code computed)
+            EXEMPT['hess_psi*: 0 < |ζ − Πζ| ≤ 64 ulp (kink of ½dist², ∇²ψ set-valued)'] = \
+                EXEMPT.get('hess_psi*: 0 < |ζ − Πζ| ≤ 64 ulp (kink of ½dist², ∇²ψ set-valued)', 0) + 1
+            return 'exempt'
         got = o.vec()
         if prod:
             v = [F(a) for a in d['v']]
@@ -511,6 +657,27 @@ def monitor(op, out, st):
     return None
 
 
+def monitor(op, out, st):
+    """the property per call + bookkeeping of which (route × function × mask class) cells were checked"""
+    kind = op.split(' ', 1)[0]
+    if kind == 'sqn' and out == 'bad-op':
+        return 'generator inconsistent: sqn does not continue the kept object'
+    r = monitor_one(op, out, st)
+    if r == 'exempt':
+        return None
+    if r is None:
+        d = parse_op(op)
+        cell = (d['variant'], d['fn'], how_of(d['fn'], d['mask'], d['m']), d['m'] == 0,
+                sigma_kind(d['fn'], d['S'], d['m']))
+        COV[cell] = COV.get(cell, 0) + 1
+        COV_MASKS.setdefault(d['variant'], set()).add(d['mask'])
+        if kind == 'sq0':
+            COV_SEQ['sequences'] += 1
+        elif kind == 'sqn':
+            COV_SEQ['calls_after_the_first'] += 1
+    return r
+
+
 def nontrivial(op, out):
     t = op.split()
     # distinct (function, route, mask, m = 0?, shared Σ?) combinations that produced a value
@@ -518,132 +685,565 @@ def nontrivial(op, out):
     return (t[1], t[2], t[3], m == 0, out.split(' ; ')[-1])
 
 
-# ---------------------------------------------------------------- CasADi route (values only)
+# ---------------------------------------------------------------- CasADi route
+# Three generated-C modules reached through alpaqa::CasADiProblem (alpaqa's own casadi::external shim):
+#   rosen  /repo/test/outer/rosenbrock_functions_test.c (shipped; n = 2, m = 1, one parameter)
+#   poly   harness/c04_casadi_poly.c                    (n = 3, m = 2, 19 parameters: vector Σ matters)
+#   poly0  the same file with -DPOLY_M0                 (n = 3, m = 0: the generator's m = 0 layout)
+# Every function of the CasADi problem class is evaluated through TypeErasedProblem (op `cas2`) and
+# compared with the closed forms computed HERE from the problem's defining polynomials in exact
+# rational arithmetic (nothing the module or the library computed is an input of the reference).
 
-def casadi_stage(rep, broken, exe, tier):
-    so = os.environ.get('C04_CASADI')
-    if not exe or not so:
+CAS_FUNCS = ['f', 'grad_f', 'f_grad_f', 'g', 'grad_g_prod', 'f_g', 'gfggp', 'grad_L', 'psi', 'grad_psi',
+             'psi_grad_psi', 'hess_L_prod', 'hess_psi_prod', 'jac_g', 'hess_L', 'hess_psi']
+CAS_MODULES = ['rosen', 'poly', 'poly0']
+# exported function symbols of each module (read from the shared object's dynamic symbol table in
+# `module_symbols`, i.e. independent of the loader under test); what the documented generator emits
+CAS_GENERATED = {'f', 'f_grad_f', 'g', 'psi_grad_psi', 'grad_L', 'psi', 'jacobian_g', 'hess_L', 'hess_L_prod',
+                 'hess_psi', 'hess_psi_prod', 'grad_g_prod'}
+KEY_NO_GGP = 'C04-casadi-generated-module-lacks-grad_g_prod'
+KEY_FULL_UPPER = 'C04-casadi-shim-full-pattern-labelled-upper'
+
+
+def module_symbols(so):
+    r = subprocess.run(['nm', '-D', '--defined-only', so], stdout=subprocess.PIPE, text=True)
+    names = {l.split()[-1] for l in r.stdout.splitlines() if l.strip()}
+    return {f for f in CAS_GENERATED if f in names and f + '_sparsity_out' in names}
+
+
+def psub(a, b):
+    return a + b.scale(-1)
+
+
+def cas_polys(mod, prm):
+    """(n, m, f, [g_j], f_mag, [g_mag_j]) — the module's defining polynomials and the same
+    polynomials with every coefficient replaced by its absolute value (operand magnitudes)."""
+    F = Fr
+    if mod == 'rosen':
+        n = 2
+        one, x0, x1 = Poly.const(n, 1), Poly.var(n, 0), Poly.var(n, 1)
+        a, b = psub(one, x0), psub(x1, x0 * x0)
+        f = a * a + b * b
+        am, bm = one + x0, x1 + x0 * x0
+        fm = am * am + bm * bm
+        p = F(prm[0])
+        g = [x0 * x0 + (x1 * x1).scale(p)]
+        gm = [x0 * x0 + (x1 * x1).scale(abs(p))]
+        return n, 1, f, g, fm, gm
+    n = 3
+    c = prm[0:3]
+    q00, q01, q11, q12, q22 = prm[3:8]
+    t3 = prm[8]
+    a00, a01, a11, a12 = prm[9:13]
+    b = prm[13:15]
+    h00, h01, h11, h12 = prm[15:19]
+    Q = [q00, q01, 0.0, q01, q11, q12, 0.0, q12, q22]
+    A = [a00, a01, 0.0, 0.0, a11, a12]
+    HG = [h00, h01, 0.0, 0.0, h11, h12]
+    m = 2 if mod == 'poly' else 0
+    ab = lambda v: [abs(t) for t in v]
+    f = poly_f(n, c, Q, t3)
+    fm = poly_f(n, ab(c), ab(Q), abs(t3))
+    g = [poly_g(n, j, A, b, HG) for j in range(m)]
+    gm = [poly_g(n, j, ab(A), ab(b), ab(HG)) for j in range(m)]
+    return n, m, f, g, fm, gm
+
+
+def cas_exact(mod, x, prm, y, S, lb, ub, scale, v):
+    """Exact closed forms of everything the CasADi problem class evaluates, with magnitudes."""
+    F = Fr
+    n, m, f, g, fm, gm = cas_polys(mod, prm)
+    ax = [abs(F(t)) for t in x]
+    X = [F(t) for t in x]
+    E = dict(n=n, m=m)
+    E['f'] = f.eval(X); E['f_m'] = fm.eval(ax)
+    E['gf'] = [f.deriv(i).eval(X) for i in range(n)]
+    E['gf_m'] = [fm.deriv(i).eval(ax) for i in range(n)]
+    E['Hf'] = [[f.deriv(i).deriv(k).eval(X) for k in range(n)] for i in range(n)]
+    E['Hf_m'] = [[fm.deriv(i).deriv(k).eval(ax) for k in range(n)] for i in range(n)]
+    E['g'] = [gj.eval(X) for gj in g]; E['g_m'] = [gj.eval(ax) for gj in gm]
+    E['J'] = [[gj.deriv(i).eval(X) for i in range(n)] for gj in g]
+    E['J_m'] = [[gj.deriv(i).eval(ax) for i in range(n)] for gj in gm]
+    E['Hg'] = [[[gj.deriv(i).deriv(k).eval(X) for k in range(n)] for i in range(n)] for gj in g]
+    E['Hg_m'] = [[[gj.deriv(i).deriv(k).eval(ax) for k in range(n)] for i in range(n)] for gj in gm]
+    Y = [F(t) for t in y]
+    sig = [F(t) for t in S]
+    zeta = [E['g'][j] + Y[j] / sig[j] for j in range(m)]
+    pz = [proj(zeta[j], lb[j], ub[j]) for j in range(m)]
+    dd = [zeta[j] - pz[j] for j in range(m)]
+    yhat = [sig[j] * dd[j] for j in range(m)]
+    mz = [E['g_m'][j] + abs(Y[j] / sig[j]) + abs(pz[j]) for j in range(m)]
+    myh = [sig[j] * mz[j] for j in range(m)]
+    E.update(zeta=zeta, pz=pz, d=dd, yhat=yhat, yhat_m=myh, sig=sig)
+    E['psi'] = E['f'] + sum(sig[j] * dd[j] ** 2 for j in range(m)) / 2
+    E['psi_m'] = E['f_m'] + sum(sig[j] * mz[j] ** 2 for j in range(m))
+    J, Jm = E['J'], E['J_m']
+    E['ggp'] = [sum(J[j][i] * Y[j] for j in range(m)) for i in range(n)]
+    E['ggp_m'] = [sum(Jm[j][i] * abs(Y[j]) for j in range(m)) for i in range(n)]
+    E['gradL'] = [E['gf'][i] + E['ggp'][i] for i in range(n)]
+    E['gradL_m'] = [E['gf_m'][i] + E['ggp_m'][i] for i in range(n)]
+    E['gradpsi'] = [E['gf'][i] + sum(J[j][i] * yhat[j] for j in range(m)) for i in range(n)]
+    E['gradpsi_m'] = [E['gf_m'][i] + sum(Jm[j][i] * myh[j] for j in range(m)) for i in range(n)]
+    s = F(scale)
+    V = [F(t) for t in v]
+    act = [sig[j] if dd[j] != 0 else F(0) for j in range(m)]
+
+    def hess(w, wm_, gn):
+        H = [[s * E['Hf'][i][k] + sum(w[j] * E['Hg'][j][i][k] for j in range(m)) +
+              (sum(J[j][i] * act[j] * J[j][k] for j in range(m)) if gn else 0) for k in range(n)] for i in range(n)]
+        Hm = [[abs(s) * E['Hf_m'][i][k] + sum(wm_[j] * E['Hg_m'][j][i][k] for j in range(m)) +
+               (sum(Jm[j][i] * act[j] * Jm[j][k] for j in range(m)) if gn else 0) for k in range(n)] for i in range(n)]
+        return H, Hm
+    E['HL'], E['HL_m'] = hess(Y, [abs(t) for t in Y], False)
+    E['Hpsi'], E['Hpsi_m'] = hess(yhat, myh, True)
+    for nm in ('HL', 'Hpsi'):
+        E[nm + 'v'] = [sum(E[nm][i][k] * V[k] for k in range(n)) for i in range(n)]
+        E[nm + 'v_m'] = [sum(E[nm + '_m'][i][k] * abs(V[k]) for k in range(n)) for i in range(n)]
+    # an active-set decision within rounding of a kink (or exactly on it: the generalised Hessian of
+    # ½dist² is set-valued there) leaves ∇²ψ undetermined
+    E['near_kink'] = any(b not in (INF, -INF) and abs(zeta[j] - F(b)) <= 64 * EPS * (abs(zeta[j]) + abs(F(b)))
+                         for j in range(m) for b in (lb[j], ub[j]))
+    return E
+
+
+def parse_pattern(t):
+    """pattern tokens → (kind, rows, cols, sym, [(r, c)…]) in storage order"""
+    kind = t.tok(); rows = t.nat(); cols = t.nat(); sym = t.tok()
+    if kind == 'D':
+        return kind, rows, cols, sym, [(r, c) for c in range(cols) for r in range(rows)]
+    nnz = t.nat()
+    if kind == 'C':
+        outer = [t.nat() for _ in range(cols + 1)]
+        inner = [t.nat() for _ in range(nnz)]
+        ent = [(inner[i], c) for c in range(cols) for i in range(outer[c], outer[c + 1])]
+        if outer[0] != 0 or outer[-1] != nnz or any(a > b for a, b in zip(outer, outer[1:])):
+            raise ValueError(f'malformed column pointers {outer}')
+        return kind, rows, cols, sym, ent
+    first = t.nat()
+    rr = [t.nat() - first for _ in range(nnz)]
+    cc = [t.nat() - first for _ in range(nnz)]
+    return kind, rows, cols, sym, list(zip(rr, cc))
+
+
+def denote(name, pat, vals, rows, cols):
+    """The dense matrix a (pattern, values) pair denotes per problem/sparsity.hpp: `Upper` = symmetric,
+    upper-triangular part stored; a dense symmetric matrix stores all elements.  → (matrix | None, error)"""
+    kind, r_, c_, sym, ent = pat
+    if (r_, c_) != (rows, cols):
+        return None, f'{name}: pattern is {r_}×{c_}, the matrix is {rows}×{cols}'
+    if len(vals) != len(ent):
+        return None, f'{name}: {len(vals)} values for {len(ent)} pattern entries'
+    M = [[Fr(0)] * cols for _ in range(rows)]
+    seen = set()
+    for (r, c), a in zip(ent, vals):
+        if not (0 <= r < rows and 0 <= c < cols):
+            return None, f'{name}: entry ({r},{c}) outside the matrix'
+        if not math.isfinite(a):
+            return None, f'{name}: entry ({r},{c}) is {a!r} (not written?)'
+        if (r, c) in seen:
+            return None, f'{name}: entry ({r},{c}) stored twice'
+        seen.add((r, c))
+        if sym == 'up' and kind != 'D':
+            if r > c:
+                return None, (f'{name}: pattern labelled Symmetry::Upper stores entry ({r},{c}) below the '
+                              f'diagonal'), KEY_FULL_UPPER
+            M[r][c] = M[c][r] = Fr(a)
+        elif sym == 'lo' and kind != 'D':
+            if r < c:
+                return None, f'{name}: pattern labelled Symmetry::Lower stores entry ({r},{c}) above the diagonal'
+            M[r][c] = M[c][r] = Fr(a)
+        else:
+            M[r][c] = Fr(a)
+    return M, None
+
+
+def cmp_mat(name, M, exact, mags, dexact, k):
+    for i, row in enumerate(exact):
+        for j, e in enumerate(row):
+            a = M[i][j]
+            ok = (a == e) if dexact else abs(a - e) <= k * EPS * max(mags[i][j], Fr(1, 10 ** 300))
+            if not ok:
+                return f'{name}[{i},{j}] = {float(a)!r}, definition gives {float(e)!r}'
+    return None
+
+
+def split_sections(out):
+    secs = {}
+    for part in out.split(' | '):
+        name, _, val = part.partition('=')
+        secs[name.strip()] = val.strip()
+    return secs
+
+
+def casadi_monitor(op, out, st):
+    """→ list of (message, key | None); `st['cells']` counts the (module, function) comparisons made,
+    `st['exempt']` the named exemptions."""
+    res = []
+    t = T(op); t.tok()
+    mod = t.tok(); fresh = t.nat()
+    x = t.vec(); prm = t.vec(); y = t.vec(); S = t.vec(); lb = t.vec(); ub = t.vec(); scale = t.flt(); v = t.vec()
+    ex = t.tok() == 'E1'
+    if out == 'bad-op' or out.startswith('exception') or not out.startswith('dims='):
+        return [(f'generated module {mod} reached through CasADiProblem: unexpected {out[:160]}', None)]
+    secs = split_sections(out)
+    E = cas_exact(mod, x, prm, y, S, lb, ub, scale, v)
+    n, m = E['n'], E['m']
+    cells, exempt = st.setdefault('cells', {}), st.setdefault('exempt', {})
+    syms = st['symbols'][mod]
+    K = 256
+
+    def cnt(d_, k_):
+        d_[k_] = d_.get(k_, 0) + 1
+    if secs.get('dims') != f'{n} {m} {len(prm)}':
+        return [(f'{mod}: dimensions `{secs.get("dims")}`, the module defines n={n} m={m} p={len(prm)}', None)]
+    # ---- which functions the problem class reports (from the module's symbol table)
+    has = lambda f_: f_ in syms
+    want = ''.join('1' if b else '0' for b in [
+        True, False, False, has('grad_L'), has('psi'), has('psi_grad_psi'), has('psi_grad_psi'),
+        has('hess_L_prod'), has('hess_psi_prod'), has('hess_L'), has('hess_psi'),
+        has('hess_psi_prod') or (m == 0 and has('hess_L_prod')), has('hess_psi') or (m == 0 and has('hess_L')),
+        has('jacobian_g')])
+    if secs.get('provides') != want:
+        res.append((f'{mod}: provides/supports flags {secs.get("provides")}, the module exports {want}', None))
+
+    def vec_sec(name, parts):
+        """parts: list of ('s'|'v', exact, mags, label)"""
+        s_ = secs.get(name)
+        if s_ is None:
+            return f'{mod}.{name}: section missing'
+        if s_.startswith('exc:'):
+            return f'{mod}.{name}: threw {s_[:140]} where the definition gives a value'
+        o = T(s_)
+        try:
+            for kind, exact, mags, label in parts:
+                if kind == 's':
+                    a = o.flt()
+                    if not close(a, exact, mags, ex, K):
+                        return f'{mod}.{name}: {label} = {a!r}, definition gives {float(exact)!r}'
+                else:
+                    r = cmp_vec(f'{mod}.{name}: {label}', o.vec(), exact, mags, ex, K)
+                    if r:
+                        return r
+        except (IndexError, ValueError) as e:
+            return f'{mod}.{name}: unreadable output `{s_[:80]}` ({e!r})'
+        return None
+
+    def check(name, parts):
+        r = vec_sec(name, parts)
+        if r:
+            res.append((r, None))
+        else:
+            cnt(cells, (mod, name))
+    check('f', [('s', E['f'], E['f_m'], 'f')])
+    check('grad_f', [('v', E['gf'], E['gf_m'], '∇f')])
+    check('f_grad_f', [('s', E['f'], E['f_m'], 'f'), ('v', E['gf'], E['gf_m'], '∇f')])
+    check('g', [('v', E['g'], E['g_m'], 'g')])
+    check('f_g', [('s', E['f'], E['f_m'], 'f'), ('v', E['g'], E['g_m'], 'g')])
+    # ∇g·y: CasADiProblem::eval_grad_g_prod has nothing to call when the module has no `grad_g_prod`
+    for name, parts in (('grad_g_prod', [('v', E['ggp'], E['ggp_m'], '∇g·y')]),
+                        ('gfggp', [('v', E['gf'], E['gf_m'], '∇f'), ('v', E['ggp'], E['ggp_m'], '∇g·y')])):
+        if m > 0 and not has('grad_g_prod') and secs.get(name, '').startswith('exc:notimpl:'):
+            cnt(exempt, f'{mod}.{name}: not_implemented, module exports no grad_g_prod (open finding)')
+            res.append((f'{mod}.{name}: eval_grad_g_prod throws not_implemented_error for a module produced by '
+                        f'the documented generator (it never emits grad_g_prod); ∇g(x)·y is not obtainable '
+                        f'through the problem interface', KEY_NO_GGP))
+        else:
+            check(name, parts)
+    check('grad_L', [('v', E['gradL'], E['gradL_m'], '∇L')])
+    check('psi', [('s', E['psi'], E['psi_m'], 'ψ'), ('v', E['yhat'], E['yhat_m'], 'ŷ')])
+    check('grad_psi', [('v', E['gradpsi'], E['gradpsi_m'], '∇ψ')])
+    check('psi_grad_psi', [('s', E['psi'], E['psi_m'], 'ψ'), ('v', E['gradpsi'], E['gradpsi_m'], '∇ψ')])
+    check('hess_L_prod', [('v', E['HLv'], E['HLv_m'], '∇²L·v')])
+    if E['near_kink']:
+        cnt(exempt, 'hess_psi*: ζ within 64 ulp of a finite bound of D (generalised Hessian set-valued)')
+    else:
+        check('hess_psi_prod', [('v', E['Hpsiv'], E['Hpsiv_m'], '∇²ψ·v')])
+    # ---- matrix-valued functions: the dense matrix the (pattern, values) pair denotes, alpaqa's own
+    # conversion to dense, and alpaqa's conversion to COO, must all be the exact matrix
+    for name, rows, cols, exact, mags in (('jac_g', m, n, E['J'], E['J_m']), ('hess_L', n, n, E['HL'], E['HL_m']),
+                                          ('hess_psi', n, n, E['Hpsi'], E['Hpsi_m'])):
+        if name == 'hess_psi' and E['near_kink']:
+            continue
+        s_ = secs.get(name)
+        if s_ is None:
+            res.append((f'{mod}.{name}: section missing', None))
+            continue
+        parts = dict((p_.partition('=')[0].strip(), p_.partition('=')[2].strip()) for p_ in s_.split(' ; '))
+        bad = None
+        try:
+            for field in ('sp', 'vals', 'dense', 'coo'):
+                if parts.get(field, 'exc:missing').startswith('exc:'):
+                    if rows == 0 and field != 'sp':
+                        continue
+                    bad = (f'{mod}.{name}: {field} threw {parts.get(field, "")[:150]}',
+                           KEY_FULL_UPPER if 'below_the_diagonal' in parts.get(field, '') else None)
+                    break
+            if bad is None:
+                pat = parse_pattern(T(parts['sp']))
+                vals = T(parts['vals']).vec()
+                r = denote(f'{mod}.{name}', pat, vals, rows, cols)
+                if r[1]:
+                    bad = (r[1], r[2] if len(r) > 2 else None)
+                else:
+                    e = cmp_mat(f'{mod}.{name} (pattern + values)', r[0], exact, mags, ex, K)
+                    if e:
+                        bad = (e, None)
+            if bad is None and rows > 0:
+                o = T(parts['dense'])
+                sym = o.tok()
+                dv = o.vec()
+                if len(dv) != rows * cols or not all(math.isfinite(a) for a in dv):
+                    bad = (f'{mod}.{name}: conversion to dense gives {len(dv)} values / non-finite entries', None)
+                else:
+                    M = [[Fr(dv[c * rows + r]) for c in range(cols)] for r in range(rows)]
+                    e = cmp_mat(f'{mod}.{name} (alpaqa conversion to dense)', M, exact, mags, ex, K)
+                    if e:
+                        bad = (e, None)
+            if bad is None and rows > 0:
+                cs, _, cv = parts['coo'].partition(' v ')
+                pat = parse_pattern(T(cs))
+                r = denote(f'{mod}.{name} (alpaqa conversion to COO)', pat, T(cv).vec(), rows, cols)
+                if r[1]:
+                    bad = (r[1], r[2] if len(r) > 2 else None)
+                else:
+                    e = cmp_mat(f'{mod}.{name} (alpaqa conversion to COO)', r[0], exact, mags, ex, K)
+                    if e:
+                        bad = (e, None)
+        except (IndexError, ValueError, KeyError) as e:
+            bad = (f'{mod}.{name}: unreadable output `{s_[:100]}` ({e!r})', None)
+        if bad:
+            res.append(bad)
+        else:
+            cnt(cells, (mod, name))
+    return res
+
+
+def gen_cas_case(rng, mod, exact):
+    """one point (x, param, y, Σ, D, scale, v) for a module"""
+    n, m, npar = {'rosen': (2, 1, 1), 'poly': (3, 2, 19), 'poly0': (3, 0, 19)}[mod]
+    if exact:
+        x = [dy(rng) for _ in range(n)]
+        prm = [dy(rng, 8, 2) for _ in range(npar)] if mod != 'rosen' else [rng.choice([1.0, 2.0, 0.5, 4.0, -1.5])]
+        y = [dy(rng, 12, 4) for _ in range(m)]
+        S = [2.0 ** rng.randint(-3, 4) for _ in range(m)]
+        scale = rng.choice([1.0, 1.0, 0.5, 2.0, dy(rng, 8, 4)])
+        v = [dy(rng) for _ in range(n)]
+    else:
+        x = [rng.uniform(-2, 2) for _ in range(n)]
+        prm = ([rng.gauss(0, 2) if rng.random() < 0.85 else 0.0 for _ in range(npar)] if mod != 'rosen'
+               else [rng.choice([1.0, 10.0, 100.0, rng.uniform(0.5, 50)])])
+        y = [rng.gauss(0, 3) for _ in range(m)]
+        S = [math.exp(rng.gauss(0, 1.5)) for _ in range(m)]
+        scale = rng.choice([1.0, 1.0, rng.gauss(0, 2)])
+        v = [rng.gauss(0, 1) for _ in range(n)]
+    _, _, f, g, _, _ = cas_polys(mod, prm)
+    lb, ub = [], []
+    for j in range(m):
+        zeta = float(g[j].eval([Fr(t) for t in x]) + Fr(y[j]) / Fr(S[j]))
+        w = abs(dy(rng, 8, 4)) + 0.25
+        k = rng.random()
+        kink = exact and 0.75 <= k < 0.8
+        if k < 0.1:
+            lo, hi = -INF, INF
+        elif k < 0.25:
+            lo, hi = (-INF, zeta + rng.choice([-w, w])) if rng.random() < 0.5 else (zeta + rng.choice([-w, w]), INF)
+        elif k < 0.35:
+            lo = hi = zeta + rng.choice([-w, w])
+        elif k < 0.55:                    # above the upper bound, asymmetric box
+            lo, hi = zeta - 3 * w - 1, zeta - w
+        elif k < 0.75:                    # below the lower bound
+            lo, hi = zeta + w, zeta + 2 * w + 0.5
+        elif kink:                        # exactly on a kink
+            lo, hi = (zeta, zeta + w) if rng.random() < 0.5 else (zeta - w, zeta)
+        else:
+            lo, hi = zeta - w, zeta + 2 * w
+        if exact and not kink:
+            lo = round(lo * 16) / 16 if math.isfinite(lo) else lo
+            hi = round(hi * 16) / 16 if math.isfinite(hi) else hi
+        if lo > hi:
+            lo, hi = hi, lo
+        lb.append(lo); ub.append(hi)
+    return (f'{vec2p(x)} {vec2p(prm)} {vec2p(y)} {vec2p(S)} {vec2p(lb)} {vec2p(ub)} {f2h(scale)} {vec2p(v)} '
+            f'E{1 if exact else 0}')
+
+
+def gen_cas_ops(rng, ncases):
+    """independent cases (fresh object) and call sequences on one kept object per module"""
+    ops = []
+    while len(ops) < ncases:
+        mod = rng.choice(['rosen', 'rosen', 'poly', 'poly', 'poly', 'poly0'])
+        L = rng.choice([1, 1, 1, 2, 4, 8])
+        for k in range(L):
+            ops.append(f'cas2 {mod} {1 if k == 0 else 0} {gen_cas_case(rng, mod, rng.random() < 0.4)}')
+    return ops
+
+
+def casadi_stage(rep, broken, exe, tier, mods):
+    if not exe or not all(mods.values()):
         broken.append('CasADi route: module or harness missing')
         return
     rng = random.Random(C.seed() * 977 + 5)
-    ops = []
-    for _ in range(300 if tier == 'quick' else 3000):
-        x = [rng.uniform(-2, 2), rng.uniform(-2, 2)]
-        prm = [rng.choice([1.0, 10.0, 100.0, rng.uniform(0.5, 50)])]
-        y = [rng.gauss(0, 3)]
-        S = [math.exp(rng.gauss(0, 1.5))]
-        a, b = sorted((rng.uniform(-4, 4), rng.uniform(-4, 4)))
-        k = rng.random()
-        lb, ub = ([-INF], [b]) if k < 0.2 else ([a], [INF]) if k < 0.4 else ([a], [a]) if k < 0.5 else ([a], [b])
-        ops.append(f'cas {vec2p(x)} {vec2p(prm)} {vec2p(y)} {vec2p(S)} {vec2p(lb)} {vec2p(ub)}')
+    ops = gen_cas_ops(rng, 400 if tier == 'quick' else 4000)
     outs, rc, err = C.run_lines(exe, ops)
     if rc != 0 or len(outs) != len(ops):
         broken.append(f'CasADi route: harness failed (rc={rc}) {err[-300:]}')
         return
+    st = {'symbols': {k: module_symbols(v) for k, v in mods.items()}}
     bad = 0
+    hist = {}            # module -> ops on the kept object since it was created
     for op, out in zip(ops, outs):
+        mod_, fresh_ = op.split()[1], op.split()[2] == '1'
+        before_ops = [] if fresh_ else list(hist.get(mod_, []))
+        hist[mod_] = before_ops + [op]
         try:
-            msg = casadi_monitor(op, out)
+            msgs = casadi_monitor(op, out, st)
         except Exception as e:   # a monitor crash must not look like a pass
-            msg = f'monitor crashed on output {out[:80]!r}: {e!r}'
-        if msg:
-            rep.violation('monitor(casadi): ' + msg, {'op': op, 'impl_out': out}, True)
-            bad += 1
-            if bad >= 3:
-                break
+            msgs = [(f'monitor crashed on output {out[:80]!r}: {e!r}', None)]
+        for msg, key in msgs:
+            before = len(rep.violations)
+            rep.violation('monitor(casadi): ' + msg, {'op': op, 'impl_out': out, 'history': before_ops}, True,
+                          key=key)
+            bad += len(rep.violations) > before
+        if bad >= 3:
+            break
     rep.cov['evaluations'] += len(outs)
     rep.cov['casadi_route_cases'] = len(outs)
-
-
-def casadi_monitor(op, out):
-    if out.startswith('exception') or out == 'bad-op' or out.startswith('notimpl'):
-        return f'generated module reached through CasADiProblem: unexpected {out[:120]}'
-    t = T(op); t.tok()
-    x = t.vec(); prm = t.vec(); y = t.vec(); S = t.vec(); lb = t.vec(); ub = t.vec()
-    o = T(out)
-    n = o.nat(); m = o.nat()
-    f = o.flt(); gf = o.vec(); g = o.vec(); Jv = o.vec(); psi = o.flt(); yh = o.vec(); gp = o.vec()
-    psi2 = o.flt(); gp2 = o.vec(); gl = o.vec(); bits = o.tok()
-    if (n, m) != (2, 1):
-        return f'unexpected dimensions {n}, {m}'
-    if bits != '1001111111111':
-        return f'provides flags of the generated module: {bits}'
-    F = Fr
-    d = dict(n=n, m=m, f0=f, gf=gf, g=g, J=[Jv[j + i * m] for j in range(m) for i in range(n)], y=y, S=S,
-             lb=lb, ub=ub)
-    cf = closed_forms(d)
-    K = 256
-    if not close(psi, cf['psi'], cf['mpsi'], False, K) or not close(psi2, cf['psi'], cf['mpsi'], False, K):
-        return f'ψ = {psi!r}/{psi2!r}, closed form from the module\'s own f, g gives {float(cf["psi"])!r}'
-    r = cmp_vec('ŷ', yh, cf['yhat'], cf['myh'], False, K)
-    r = r or cmp_vec('∇ψ', gp, cf['gradpsi'], cf['mgp'], False, K)
-    r = r or cmp_vec('∇ψ (ψ_grad_ψ)', gp2, cf['gradpsi'], cf['mgp'], False, K)
-    r = r or cmp_vec('∇L', gl, cf['gradL'], cf['mgl'], False, K)
-    return r
+    rep.cov['casadi_sequences_on_one_object'] = sum(1 for o in ops if o.split()[2] == '0')
+    cells = st.get('cells', {})
+    rep.cov['casadi_route_table'] = {m_: {f_: cells.get((m_, f_), 0) for f_ in CAS_FUNCS} for m_ in CAS_MODULES}
+    rep.cov['casadi_module_symbols'] = {k: sorted(v) for k, v in st['symbols'].items()}
+    rep.cov['casadi_exemptions'] = st.get('exempt', {})
+    # required coverage: every function of every module compared at least once, unless the cell is
+    # covered by an open finding that was reproduced in this run
+    known_open = {k for k, _ in rep.known_hits}
+    for m_ in CAS_MODULES:
+        for f_ in CAS_FUNCS:
+            if cells.get((m_, f_), 0) == 0:
+                if f_ in ('grad_g_prod', 'gfggp') and 'grad_g_prod' not in st['symbols'][m_] and KEY_NO_GGP in known_open:
+                    continue
+                if f_ in ('hess_L', 'hess_psi') and KEY_FULL_UPPER in known_open and m_ == 'rosen':
+                    continue
+                if bad == 0:
+                    broken.append(f'required coverage: CasADi module {m_}, function {f_} was never compared')
 
 
 # ---------------------------------------------------------------- main
 
+N_QUICK, N_THOROUGH = 6000, 120000
 LIBS = ['problem/type-erased-problem.cpp', 'problem/problem-counters.cpp', 'util/demangled-typename.cpp',
         'util/dl.cpp', 'util/io/csv.cpp', 'util/print.cpp']
 HFLAGS = ['-DC04_WITH_DL=1', '-DC04_WITH_CASADI=1']
 
 
 def prepare(tier):
-    """Generated TU list, plug-in and CasADi module; returns (masks, sources, plugin, rosen, errors)."""
+    """Generated TU list, plug-in and CasADi modules; returns (masks, sources, plugin, mods, errors)."""
     masks = ct_masks(tier)
     tus = generate_tus(masks)
     flags_so = ['-std=c++20', '-O1', '-ffp-contract=off', '-fno-fast-math', '-w'] + list(C.INCLUDES)
     plugin, err1 = build_shared('c04_plugin', os.path.join(C.VERIF, 'harness', 'c04_plugin.cpp'), C.CXX, flags_so)
+    cflags = ['-O1', '-ffp-contract=off', '-w']
+    polyc = os.path.join(C.VERIF, 'harness', 'c04_casadi_poly.c')
     rosen, err2 = build_shared('c04_rosen', C.REPO + '/test/outer/rosenbrock_functions_test.c', 'gcc', ['-O1'])
+    poly, err3 = build_shared('c04_cpoly', polyc, 'gcc', cflags)
+    poly0, err4 = build_shared('c04_cpoly0', polyc, 'gcc', cflags + ['-DPOLY_M0'])
+    mods = {'rosen': rosen, 'poly': poly, 'poly0': poly0}
     if plugin:
         os.environ['C04_PLUGIN'] = plugin
-    if rosen:
-        os.environ['C04_CASADI'] = rosen
+    for k, env in (('rosen', 'C04_CASADI'), ('poly', 'C04_CASADI_POLY'), ('poly0', 'C04_CASADI_POLY0')):
+        if mods[k]:
+            os.environ[env] = mods[k]
     interop = [C.REPO + '/src/interop/dl/src/dl-problem.cpp',
                C.REPO + '/src/interop/casadi/src/CasADiProblem.cpp',
                C.REPO + '/src/interop/casadi/src/casadi-external-function.cpp']
     sources = [os.path.join(C.VERIF, 'harness', 'c04.cpp')] + tus + interop + C.repo_lib_sources(LIBS)
-    return masks, sources, plugin, rosen, (err1, err2)
+    return masks, sources, plugin, mods, (err1, ' '.join(e for e in (err2, err3, err4) if e))
 
 
 def replay(r):
     """`checks/replay.py <file>`: re-run the recorded op through the real code, the model and the monitor."""
-    op = (r.get('payload') or {}).get('op')
+    pl = r.get('payload') or {}
+    op = pl.get('op')
     if not op:
         print('replay: no input recorded (broken proof / tie):', r.get('what'))
         return 1
-    masks, sources, plugin, rosen, _ = prepare(r.get('tier', 'quick'))
+    masks, sources, plugin, mods, _ = prepare(r.get('tier', 'quick'))
     exe, log = C.build_exe('c04', sources, HFLAGS)
     if exe is None:
         print(log[-2000:])
         return 1
-    h, _, _ = C.run_lines(exe, [op])
-    print('impl :', h[0] if h else None)
-    if op.startswith('cas '):
-        m = casadi_monitor(op, h[0]) if h else 'no output'
+    # a call of a sequence is replayed with the calls before it (the kept object's history)
+    hist = list(pl.get('history') or [])
+    if op.startswith('sqn ') and 'index' in pl:
+        # the run is deterministic in (seed, tier): regenerate its op list and walk back to the `sq0`
+        tier = r.get('tier', 'quick')
+        rng = random.Random(int(r.get('seed', 1)) * 1000003 + (17 if tier == 'thorough' else 0))
+        allops = corpus_ops(masks) + make_gen_ops(masks)(rng, N_THOROUGH if tier == 'thorough' else N_QUICK)
+        i = pl['index']
+        if i < len(allops) and allops[i] == op:
+            j = i
+            while j > 0 and not allops[j].startswith('sq0 '):
+                j -= 1
+            hist = allops[j:i]
+        else:
+            print('replay: the sequence this call belongs to could not be regenerated (search phase input); '
+                  're-run the check at the recorded seed')
+    ops = hist + [op]
+    h, _, _ = C.run_lines(exe, ops)
+    print('impl :', h[-1] if h else None)
+    if op.startswith('cas2 '):
+        st = {'symbols': {k: module_symbols(v) for k, v in mods.items()}}
+        m = None
+        for o_, h_ in zip(ops, h):
+            m = casadi_monitor(o_, h_, st)
+        m = [x for x in (m or []) if not (x[1] and any(kf.get('key') == x[1] and kf.get('status') == 'open'
+                                                      for kf in C.load_known('C04')))] if h else 'no output'
     else:
         dexe = C.driver_exe('drv_c04')
         if os.path.exists(dexe):
-            d, _, _ = C.run_lines(dexe, [op])
-            print('model:', d[0] if d else None)
-            print('correspondence:', 'agree' if h and d and h[0].strip() == d[0].strip() else 'DIFFER')
-        m = monitor(op, h[0], {}) if h else 'no output'
+            d, _, _ = C.run_lines(dexe, ops)
+            print('model:', d[-1] if d else None)
+            print('correspondence:', 'agree' if h and d and h[-1].strip() == d[-1].strip() else 'DIFFER')
+        m = monitor_one(op, h[-1], {}) if h else 'no output'
+        m = None if m == 'exempt' else m
     print('monitor:', m)
     return 1 if m else 0
 
 
+def coverage_stage(rep, broken):
+    """required-coverage table of the interface routes: every (route, function, how, m = 0?, Σ kind)
+    class must have been evaluated and accepted by the monitor at least once in this run"""
+    req = required_cells()
+    missing = [c for c in req if COV.get(c, 0) == 0]
+    table = {}
+    for (route, fn, how, m0, sg), k in sorted(COV.items()):
+        table.setdefault(route, {}).setdefault(fn, {})
+        name = f'{how}|{"m=0" if m0 else "m>0"}|Σ:{sg}'
+        table[route][fn][name] = k
+    rep.cov['route_function_mask_table'] = table
+    rep.cov['required_cells'] = len(req)
+    rep.cov['required_cells_covered'] = len(req) - len(missing)
+    rep.cov['distinct_masks_per_route'] = {k: len(v) for k, v in COV_MASKS.items()}
+    rep.cov['one_object_call_sequences'] = dict(COV_SEQ)
+    rep.cov['exemptions'] = dict(EXEMPT)
+    if missing and not rep.violations:
+        broken.append('required coverage: interface classes never evaluated: ' +
+                      '; '.join(map(str, missing[:6])) + (f' … ({len(missing)})' if len(missing) > 6 else ''))
+    if COV_SEQ['calls_after_the_first'] == 0 and not rep.violations:
+        broken.append('required coverage: no call sequence on one kept problem object was evaluated')
+
+
 def main(argv):
     tier = C.tier_from_argv(argv)
-    masks, sources, plugin, rosen, (err1, err2) = prepare(tier)
+    masks, sources, plugin, mods, (err1, err2) = prepare(tier)
 
     def extra(rep, broken, exe, tier_):
         if not plugin:
             broken.append('C-ABI plug-in does not build: ' + err1)
-        if not rosen:
-            broken.append('CasADi test module does not build: ' + err2)
+        if not all(mods.values()):
+            broken.append('CasADi module does not build: ' + err2)
         rep.cov['compile_time_masks'] = len(masks)
-        casadi_stage(rep, broken, exe, tier_)
+        coverage_stage(rep, broken)
+        casadi_stage(rep, broken, exe, tier_, mods)
 
     return C.standard_check(
         'C04', argv,
@@ -654,8 +1254,8 @@ def main(argv):
                        'Alpaqa/Proofs/C04Deriv.lean', 'Alpaqa/Proofs/Basic.lean', 'Driver/C04.lean'],
         harness_name='c04',
         harness_sources=sources, harness_flags=HFLAGS,
-        gen_ops=make_gen_ops(masks), monitor=monitor, nontrivial=nontrivial,
-        n_quick=6000, n_thorough=120000, extra_stage=extra,
+        gen_ops=make_gen_ops(masks), monitor=monitor, nontrivial=nontrivial, corpus=corpus_ops(masks),
+        n_quick=N_QUICK, n_thorough=N_THOROUGH, extra_stage=extra,
         trusted_base=[
             'Lean 4.33 kernel + Mathlib (axioms: propext, Classical.choice, Quot.sound)',
             'gen/gen_c04.py (+ cxxparse/lean_emit): calc_ŷ_dᵀŷ and every default_eval_* of the modelled slots '
@@ -666,20 +1266,30 @@ def main(argv):
             'hand model Alpaqa/Model/C04.lean (resolve / resolveT: which default each slot gets; the '
             'fixpoint theorem states that defaults call through the final vtable) tied by bit-exact '
             'correspondence (values + call log) over compile-time masks, runtime provides_*, '
-            'ProblemWithCounters, FunctionalProblem and a C-ABI plug-in',
+            'ProblemWithCounters, FunctionalProblem and a C-ABI plug-in, for single calls and for call '
+            'sequences on one kept problem object (the model is pure: it answers every call of a sequence '
+            'as if it were the first)',
             'user-supplied optional functions are assumed to meet their contract (equal the closed form)',
             'theorems are over ordered fields / ℝ; IEEE rounding is measured by the monitors, not proved',
-            'CasADi route: shipped generated C module through alpaqa\'s own casadi::external shim (no CasADi '
-            'library needed); values compared with the closed forms, no bit-exact model',
+            'CasADi route: three generated-C modules (the shipped rosenbrock_functions_test.c; '
+            'harness/c04_casadi_poly.c, hand-written in the generator\'s style, n = 3, m = 2 and m = 0) through '
+            'alpaqa\'s own casadi::external shim (no CasADi library needed); all 16 functions of the problem '
+            'class, matrix-valued ones as (pattern, values) and through alpaqa\'s conversions to dense and COO; '
+            'compared with closed forms computed by the check from the defining polynomials in exact '
+            'arithmetic; no bit-exact model',
         ],
         assumptions=['Eigen reductions are left folds under the harness flags (confirmed by the bit-exact '
                      'correspondence on every run)',
                      '∇g(x)·y for m = 0 is the zero vector of length n (WF.ggp_nil)'],
-        rule='seeded random cases: polynomial f (cubic), g (quadratic) with dyadic coefficients evaluated '
-             'exactly at dyadic x (table-driven problem that checks its x argument); n∈{1..4}, m∈{0..4}; '
-             'Σ vector or single factor; 45% exact regime (dyadic y, power-of-two Σ, ζ placed exactly on '
-             'kinks); D rows: free, one-sided, equal, above/below/inside, asymmetric; routes ct / cnt / rt / '
-             'dl / fun; all 13 interface functions; distinct = (function, route, mask, m=0, call log)',
+        rule='a prelude with one case per required class (route ct / cnt / rt / dl / fun × 13 interface '
+             'functions × supplied / default / m = 0 fallback / not available × m = 0 / m > 0 × Σ vector / '
+             'single factor), then seeded random cases and call sequences (2..8 calls, own point / '
+             'multipliers / penalties per call) on one kept object: polynomial f (cubic), g (quadratic) with '
+             'dyadic coefficients evaluated exactly at dyadic x (table-driven problem that checks its x '
+             'argument); n∈{1..4}, m∈{0..4}; 45% exact regime (dyadic y, power-of-two Σ, ζ placed exactly on '
+             'kinks); D rows: free, one-sided, equal, above/below/inside, asymmetric; CasADi route: 3 modules × '
+             '16 functions, fresh objects and sequences on one object; distinct = (function, route, mask, '
+             'm=0, call log)',
     )
 
 
